@@ -228,12 +228,18 @@ pub fn judge_output_text(p: &Prob, ss: &SettingsSpec, st: &DefaultSettings<f64>,
         let want = format!("  tol_feas = {:.1e}, tol_gap_abs = {:.1e}, tol_gap_rel = {:.1e},", st.tol_feas, st.tol_gap_abs, st.tol_gap_rel);
         ensure!(lines.contains(&want.as_str()), "settings-line-tols", "missing {:?}", want);
         let onoff = |b: bool| if b { "on" } else { "false" };
-        ensure!(lines.iter().any(|l| l.starts_with(&format!("  static reg : {},", onoff(st.static_regularization_enable)))), "settings-line-static-reg", "");
-        ensure!(lines.iter().any(|l| l.starts_with(&format!("  dynamic reg: {},", onoff(st.dynamic_regularization_enable)))), "settings-line-dynamic-reg", "");
-        ensure!(lines.iter().any(|l| l.starts_with(&format!("  iter refine: {},", onoff(st.iterative_refinement_enable)))), "settings-line-iter-refine", "");
-        ensure!(lines.iter().any(|l| l.starts_with(&format!("  equilibrate: {},", onoff(st.equilibrate_enable)))), "settings-line-equilibrate", "");
-        let want = format!("               max iter = {}", st.equilibrate_max_iter);
-        ensure!(lines.contains(&want.as_str()), "settings-line-equil-iter", "missing {:?}", want);
+        // every settings line in full, from the settings object the solver was given
+        let wants = [
+            format!("  static reg : {}, ϵ1 = {:.1e}, ϵ2 = {:.1e}", onoff(st.static_regularization_enable), st.static_regularization_constant, st.static_regularization_proportional),
+            format!("  dynamic reg: {}, ϵ = {:.1e}, δ = {:.1e}", onoff(st.dynamic_regularization_enable), st.dynamic_regularization_eps, st.dynamic_regularization_delta),
+            format!("  iter refine: {}, reltol = {:.1e}, abstol = {:.1e},", onoff(st.iterative_refinement_enable), st.iterative_refinement_reltol, st.iterative_refinement_abstol),
+            format!("               max iter = {}, stop ratio = {:.1}", st.iterative_refinement_max_iter, st.iterative_refinement_stop_ratio),
+            format!("  equilibrate: {}, min_scale = {:.1e}, max_scale = {:.1e}", onoff(st.equilibrate_enable), st.equilibrate_min_scaling, st.equilibrate_max_scaling),
+            format!("               max iter = {}", st.equilibrate_max_iter),
+        ];
+        for want in &wants {
+            ensure!(lines.contains(&want.as_str()), "settings-line", "missing {:?} in the header:\n{}", want, lines.iter().filter(|l| l.starts_with("  ") || l.starts_with("   ")).cloned().collect::<Vec<_>>().join("\n"));
+        }
         let la = lines.iter().find(|l| l.starts_with("  linear algebra:")).ok_or_else(|| Violation::new("output-missing-line", "linear algebra"))?;
         // "auto" may resolve to any compiled-in backend: the truth is what the solver reports it used
         let threads = match r.info.linsolver.threads {
@@ -406,6 +412,12 @@ fn spaces_typed(tier: &str) -> Vec<PrintCases> {
             src: Box::new(Planted::new(l.clone(), *n, svar.clone(), Judge::C04, 0, xids, "S<=1+maxiter")),
             stdout_every: 211,
         });
+    }
+    // every printed setting at a distinct non-default value (a header that prints one field for another shows)
+    {
+        let odd = vec![SettingsSpec { odd_print_values: true, ..Default::default() }, SettingsSpec { odd_print_values: true, static_reg: false, iterative_refinement: false, ..Default::default() }];
+        v.push(PrintCases { src: Box::new(Planted::new(vec![NN(3), SOC(3)], 3, odd.clone(), Judge::C04, 0, vec![5], "odd-settings")), stdout_every: 7 });
+        v.push(PrintCases { src: Box::new(Planted::new(vec![Zero(1), NN(2), Exp], 3, odd, Judge::C04, 0, vec![5], "odd-settings")), stdout_every: 0 });
     }
     // header shapes: the per-type dimension list is abbreviated beyond five cones; every count around that
     // threshold, with sizes arranged so that each listed position and the final one are distinguishable
